@@ -819,7 +819,16 @@ where
     // We'll reject fewer than one tensors in the constructors before getting here, so first unwrap
     // is always going to succeed.
     let first_shape = shapes.next().unwrap();
+    // The length of the chain along the chained dimension is the sum of every source's length,
+    // that total must itself be a valid length (it can only overflow for zero sized elements).
+    let mut total_length = first_shape[along].1;
     for (i, shape) in shapes.enumerate() {
+        total_length = match total_length.checked_add(shape[along].1) {
+            Some(length) => length,
+            None => panic!(
+                "The total length of the sources along the dimension to chain must not exceed usize::MAX"
+            ),
+        };
         for d in 0..D {
             let similar = if d == along {
                 // don't need match for dimension lengths in the `along` dimension
@@ -852,7 +861,8 @@ where
      * If N == 0, D == 0, the shapes of the sources are not identical*, or the dimension for
      * chaining is not in sources' shape.
      *
-     * *except for the lengths along the provided dimension.
+     * *except for the lengths along the provided dimension, the sum of which must not exceed
+     * usize::MAX.
      */
     #[track_caller]
     pub fn from(sources: [S; N], along: Dimension) -> Self {
@@ -908,7 +918,8 @@ where
      * If D == 0, the shapes of the sources are not identical*, or the dimension for
      * chaining is not in sources' shape.
      *
-     * *except for the lengths along the provided dimension.
+     * *except for the lengths along the provided dimension, the sum of which must not exceed
+     * usize::MAX.
      */
     #[track_caller]
     pub fn from(sources: (S1, S2), along: Dimension) -> Self {
@@ -965,7 +976,8 @@ where
      * If D == 0, the shapes of the sources are not identical*, or the dimension for
      * chaining is not in sources' shape.
      *
-     * *except for the lengths along the provided dimension.
+     * *except for the lengths along the provided dimension, the sum of which must not exceed
+     * usize::MAX.
      */
     #[track_caller]
     pub fn from(sources: (S1, S2, S3), along: Dimension) -> Self {
@@ -1028,7 +1040,8 @@ where
      * If D == 0, the shapes of the sources are not identical*, or the dimension for
      * chaining is not in sources' shape.
      *
-     * *except for the lengths along the provided dimension.
+     * *except for the lengths along the provided dimension, the sum of which must not exceed
+     * usize::MAX.
      */
     #[track_caller]
     pub fn from(sources: (S1, S2, S3, S4), along: Dimension) -> Self {
